@@ -439,6 +439,7 @@ def _main(prop, engine, tier, seed0, runs, budget, selftest_seeds, t0, a, techni
             seed, ff, v = lst[0]
             jobs[cls] = pool.submit(_shrink_job, prop, tier, seed, ff, v["class"])
         shrunk = {}
+        unrepro = []
         for cls, fut in jobs.items():
             try:
                 shrunk[cls] = fut.result(timeout=4 * CHUNK_TIMEOUT + 60)
@@ -447,10 +448,18 @@ def _main(prop, engine, tier, seed0, runs, budget, selftest_seeds, t0, a, techni
             except cf.process.BrokenProcessPool:
                 raise HarnessError("a worker process died while shrinking")
             except Exception as e:
-                raise HarnessError(f"shrinking {cls} failed: {e!r}"[:500])
+                # this class did not reproduce (code under test that is itself nondeterministic,
+                # e.g. real threads the simulator does not own): the other classes still stand
+                unrepro.append((cls, repr(e)[:300]))
     finally:
         pool.shutdown(wait=True, cancel_futures=True)
+    for cls, why in unrepro:
+        print(f"  note: {cls} ({len(by_class[cls])} runs) did not reproduce when re-executed: {why}")
+    if unrepro and not shrunk:
+        raise HarnessError(f"no violation class reproduced: {unrepro[0][0]}: {unrepro[0][1]}")
     for cls, lst in sorted(by_class.items()):
+        if cls not in shrunk:
+            continue
         seed, ff, v = lst[0]
         sub = sorted({x[2]["class"] for x in lst})
         case, small, sv, n_exec = shrunk[cls]
@@ -476,7 +485,8 @@ def _main(prop, engine, tier, seed0, runs, budget, selftest_seeds, t0, a, techni
         if not same_family:
             print(p.stdout[-800:], p.stderr[-800:])
             print(f"UNREPRODUCED-VIOLATION property={prop} class={cls} seed={seed} file={path}")
-            raise HarnessError(f"violation {cls} (seed {seed}) did not reproduce from {path}")
+            unrepro.append((cls, f"did not reproduce from {path} in a fresh interpreter"))
+            continue
         if not exact:
             # the code under test is itself nondeterministic (e.g. salted with a real clock or an
             # object address): the family reproduces, the details do not
@@ -492,6 +502,10 @@ def _main(prop, engine, tier, seed0, runs, budget, selftest_seeds, t0, a, techni
         print("  detail=" + json.dumps(sv["detail"], default=repr)[:1200])
         found.append({"class": cls, "runs": len(lst), "known": False, "replay": path})
         exit_code = 1
+    if unrepro and exit_code == 0 and not any(f.get("known") for f in found):
+        # something was seen, nothing of it could be reproduced: neither a pass nor a finding
+        print(f"HARNESS-ERROR violations that did not reproduce: {[c for c, _ in unrepro]}")
+        exit_code = 2
     for path, v in regress:
         print(f"VIOLATION property={prop} replay={path}")
         print(f"  regression of a repaired defect: class={v['class']}")
